@@ -315,6 +315,21 @@ Definition validate_sem (defined : list Z) (o : fout) (fv0 : fvalue) : bool :=
            end
   end.
 
+(* a message: every field is validated on its own (j5 emits no message-level,
+   oneof-level or cross-field constraint) *)
+Fixpoint validate_obj (defined : list Z) (os : list fout) (fvs : list fvalue) : bool :=
+  match os, fvs with
+  | [], [] => true
+  | o :: r, v :: s => validate_sem defined o v && validate_obj defined r s
+  | _, _ => false
+  end.
+Fixpoint rule_obj (env : enum_env) (ds : list prop) (fvs : list fvalue) : bool :=
+  match ds, fvs with
+  | [], [] => true
+  | d :: r, v :: s => rule_sem env d v && rule_obj env r s
+  | _, _ => false
+  end.
+
 End Sem.
 
 (* ---- typing of values against a declaration ------------------------------- *)
